@@ -43,8 +43,8 @@ def rule_notify_post(ctx: RuleContext, p: Program, rid: str) -> list[tuple[FuncI
         ctx.check(not bad, rid, f'{fn.module.name.split(".", 1)[1]}:{fn.qualname}', 'items mutated, views not notified',
                   f'{fn.qualname} mutates the raw item list and can return without notifying the filtered/converted views '
                   f'(their index tables go stale)', fn.where, note=f'{n_mut[0]} mutation events, notified on all paths')
-    if len(fns) < 9:
-        raise AnalysisError(f'NOTIFY-POST: only {len(fns)} methods mutating Repeated.items found (>= 9 confirmed by hand)')
+    if len(fns) < 6:
+        raise AnalysisError(f'NOTIFY-POST: only {len(fns)} methods mutating Repeated.items found (9 on the confirmed tree; a floor of 6 tolerates mutators that delegate to others)')
     return fns
 
 
@@ -78,8 +78,8 @@ def rule_notify_args(ctx: RuleContext, p: Program, fns: list[tuple[FuncInfo, set
                     why = _match(fn, last, call, ra)
                     ctx.check(not why, rid, site, f'{norm(last.node)[:80]} ~ {norm(call)}', why, fn.where,
                               note=f'{last.kind} ~ {norm(call)}')
-    if n < 6:
-        raise AnalysisError(f'NOTIFY-ARGS: only {n} splice notifications found (6 confirmed by hand)')
+    if n < 4:
+        raise AnalysisError(f'NOTIFY-ARGS: only {n} splice notifications found (6 on the confirmed tree; floor 4 tolerates delegation)')
 
 
 def _bodies(node: ast.AST) -> Iterable[list[ast.stmt]]:
@@ -202,8 +202,8 @@ def rule_sign_idx(ctx: RuleContext, p: Program, fns: list[tuple[FuncInfo, set[st
             ctx.check(k not in bad, rid, f'{fn.module.name.split(".", 1)[1]}:{fn.qualname}', k,
                       f'`{k}`: position `{bad.get(k)}` can be negative (raw Python index); the filtered views bisect on it and '
                       f'record wrong indexes', fn.where, note='non-negative on all paths')
-    if n < 6:
-        raise AnalysisError(f'SIGN-IDX: only {n} notification sites (6 confirmed by hand)')
+    if n < 4:
+        raise AnalysisError(f'SIGN-IDX: only {n} notification sites (6 on the confirmed tree; floor 4 tolerates delegation)')
 
 
 def rule_notify_order(ctx: RuleContext, p: Program, fns: list[tuple[FuncInfo, set[str]]], rid: str) -> None:
@@ -242,7 +242,7 @@ def rule_notify_order(ctx: RuleContext, p: Program, fns: list[tuple[FuncInfo, se
                       f'`{norm(c)}`: the announced range is not provably ordered ({why or "r - l is not a non-negative constant"}); for '
                       f'a[4:2] = [x] the views shift by len(values) - (r - l) with r < l and lose track of their items', fn.where,
                       note='l <= r')
-    if n < 6:
+    if n < 4:
         raise AnalysisError(f'NOTIFY-ORDER: only {n} notification sites')
 
 
@@ -435,6 +435,7 @@ def run(ctx: RuleContext, p: Program) -> None:
     ctx.try_rule(rule_view_read, p, 'VIEW-READ')
     ctx.try_rule(rule_view_write, p, 'VIEW-WRITE')
     ctx.try_rule(rule_view_snapshot, p, 'VIEW-SNAPSHOT')
+    ctx.try_rule(rule_cache_dep, p, 'CACHE-DEP')
     from . import presence
     ctx.try_rule(presence.rule_presence_truth, p, 'PRESENCE-TRUTH')
     ctx.not_decided += ['Python list semantics for every index / slice of each view', 'ordered-dict / first-match semantics of '
@@ -615,3 +616,78 @@ def rule_view_snapshot(ctx: RuleContext, p: Program, rid: str) -> None:
                       note=f'{sorted(lazy0)} consumed before any write')
     if n < 6:
         raise AnalysisError(f'VIEW-SNAPSHOT: only {n} mutators with an Iterable parameter found (>= 6 confirmed by hand)')
+
+
+# ====================================================================== CACHE-DEP (added after seeded round 3)
+def rule_cache_dep(ctx: RuleContext, p: Program, rid: str) -> None:
+    from ..model import ClassInfo, CustomProp, DescriptorDecl
+    ctx.rule(rid, 'a value cached per model instance (cached_custom_property) never outlives what it was built from: (D1) its getter reads, '
+                  'from the model, only per-instance memoised wrapper properties (or other cached ones) -- not a child that an assignment can '
+                  'replace; (D2) every property class that memoises a wrapper in instance.__dict__ and lets an assignment rebind it drops the '
+                  'cached views of that instance in the same __set__')
+    cached = p.cls('cached_custom_property', 'models.internal.properties')
+    cached_kinds = [cached, *cached.all_subclasses()]
+    # memo kinds: property classes whose _get stores a freshly built wrapper under instance.__dict__[self._attr]
+    memo: list[ClassInfo] = []
+    for m in p.modules.values():
+        for c in m.classes:
+            g = c.attrs.get('_get')
+            if isinstance(g, FuncInfo) and c not in cached_kinds and any(
+                    isinstance(a, ast.Assign) and norm(a.targets[0]).endswith('.__dict__[self._attr]') for a in walk_no_nested(g.node)):
+                memo.append(c)
+    if len(memo) < 2:
+        raise AnalysisError(f'CACHE-DEP: only {len(memo)} memoising wrapper property classes found (2 confirmed by hand)')
+    ok_kinds = set(memo) | set(cached_kinds)
+    n = 0
+    # D2
+    for c in memo:
+        st = c.attrs.get('__set__')
+        if not isinstance(st, FuncInfo):
+            continue
+        rebinds = [a for a in walk_no_nested(st.node) if isinstance(a, ast.Assign) and norm(a.targets[0]).endswith('.__dict__[self._attr]')]
+        if not rebinds:
+            continue
+        n += 1
+        inst = st.params[1]
+        drops = [x for x in walk_no_nested(st.node) if isinstance(x, ast.Call) and (dotted(x.func) or '').endswith('drop_cached_views')
+                 and x.args and norm(x.args[0]) == inst]
+        helper_ok = False
+        if drops:
+            h = p.resolve_expr(st.module, drops[0].func)
+            if isinstance(h, FuncInfo):
+                helper_ok = any(isinstance(x, ast.Call) and isinstance(x.func, ast.Attribute) and x.func.attr == 'pop' and '__dict__' in norm(x.func.value)
+                                for x in ast.walk(h.node)) and 'cached_custom_property' in norm(h.node)
+        ctx.check(bool(drops) and helper_ok, rid, f'{c.module.name.split(".", 1)[1]}:{c.name}.__set__', 'rebinds the memoised wrapper',
+                  f'{c.name}.__set__ replaces the wrapper memoised for the instance (`{norm(rebinds[0])[:70]}`) but keeps the value views cached on that '
+                  f'instance (tags, links, currencies, postings, meta, custom values ...): they stay bound to the old wrapper, so after '
+                  f'`x.raw_<field> = wrapper` a view no longer equals the raw list filtered at that moment', st.where,
+                  note='drops cached views after rebinding')
+    # D1
+    for m in p.modules.values():
+        for c in m.classes:
+            for name, s in c.attrs.items():
+                if isinstance(s, CustomProp) and s.flavour == 'cached_custom_property' and s.fget is not None:
+                    n += 1
+                    selfn = s.fget.params[0]
+                    bad = ''
+                    for x in walk_no_nested(s.fget.node):
+                        if isinstance(x, ast.Attribute) and isinstance(x.value, ast.Name) and x.value.id == selfn:
+                            t = c.lookup(x.attr)
+                            if isinstance(t, DescriptorDecl) and t.kind not in ok_kinds and isinstance(t.kind.lookup('__set__'), FuncInfo):
+                                bad = f'self.{x.attr} ({t.kind.name})'
+                            elif isinstance(t, CustomProp) and t.fset is not None and t.flavour != 'cached_custom_property':
+                                bad = f'self.{x.attr} (settable property)'
+                    ctx.check(not bad, rid, f'{m.name.split(".", 1)[1]}:{c.name}.{name}', 'cached getter reads only memoised wrappers',
+                              f'{c.name}.{name} is cached per instance but is computed from {bad}, which an assignment can replace: after the '
+                              f'replacement the cached object still refers to the old, detached child, so reads report the old content and writes fail',
+                              s.fget.where, note='reads memoised wrappers only')
+                elif isinstance(s, DescriptorDecl) and s.kind in cached_kinds and s.kind is not cached:
+                    n += 1
+                    a0 = s.arg(0)
+                    t = c.lookup(a0.id) if isinstance(a0, ast.Name) else (p.resolve_expr(c.module, a0) if a0 is not None else None)
+                    okk = isinstance(t, DescriptorDecl) and t.kind in ok_kinds
+                    ctx.check(okk, rid, f'{m.name.split(".", 1)[1]}:{c.name}.{name}', f'{s.kind.name}({norm(a0) if a0 is not None else ""}, ...)',
+                              f'{c.name}.{name} ({s.kind.name}) caches a view of `{norm(a0) if a0 is not None else "?"}`, which is not a per-instance '
+                              f'memoised wrapper property', c.where, note=f'inner {t.kind.name if isinstance(t, DescriptorDecl) else "?"}', nontrivial=False)
+    if n < 10:
+        raise AnalysisError(f'CACHE-DEP: only {n} cached properties / rebinding setters found')
